@@ -15,7 +15,7 @@ from vlib import common, tlc, tree
 common.import_repo()
 from autobean_refactor import editor as editor_lib, models, parser as parser_lib  # noqa: E402
 
-REL = {'a': 'a.bean', 'b': 'b.bean', 'c': 'sub/c.bean', 'd': 'sub/deep/d.bean', 'new': 'new.bean', 'empty': 'empty.bean'}
+REL = {'a': 'a.bean', 'b': 'b.bean', 'c': 'sub/c.bean', 'd': 'sub/deep/d.bean', 'new': 'new.bean', 'empty': 'empty.bean', 'deep': 'archive/1999/deep.bean'}
 SENTINEL_NS = 1_000_000_000 * 1_000_000_000 // 1000  # a fixed old mtime (2001-09-09)
 SENTINEL_NS = 1_000_000_000_000_000_000
 
@@ -112,6 +112,8 @@ def replay(b: dict) -> list[tuple[str, str]]:
                         del mapping[keymap[st['f']][0]]
                     elif op == 'add':
                         mapping[os.path.join(os.path.dirname(keymap['a'][0]), 'new.bean')] = tree.parse('2000-01-01 open Assets:New\n')
+                    elif op == 'adddeep':
+                        mapping[os.path.join(os.path.dirname(keymap['a'][0]), 'archive', '1999', 'deep.bean')] = tree.parse('2000-01-01 open Assets:New\n')
                     elif op == 'addempty':
                         mapping[os.path.join(os.path.dirname(keymap['a'][0]), 'empty.bean')] = tree.parse('')
                     elif op == 'raise':
@@ -139,7 +141,7 @@ def replay(b: dict) -> list[tuple[str, str]]:
         if exc != want_exc:
             findings.append(('exception', f'session ended with {exc or "no exception"}, expected {want_exc or "no exception"}'))
         final = b['final']
-        for f in list(files) + ['new', 'empty']:
+        for f in list(files) + ['new', 'empty', 'deep']:
             p = os.path.join(root, REL[f])
             exp = final[f]
             exists = os.path.exists(p)
@@ -168,6 +170,30 @@ def replay(b: dict) -> list[tuple[str, str]]:
             elif exp['content'] == 'new':
                 if data != b'2000-01-01 open Assets:New\n':
                     findings.append(('bytes', f'new file has {data!r}'))
+        # a follow-up session on the same Editor that changes nothing must not touch the disk
+        # (in particular not write edits abandoned by a block that raised)
+        snap = {}
+        for dp, dn, fn in os.walk(root):
+            for n in fn:
+                q = os.path.join(dp, n)
+                snap[q] = (open(q, 'rb').read(), os.stat(q).st_mtime_ns)
+        if os.path.exists(os.path.join(root, 'a.bean')):
+            try:
+                cm2 = ed.edit_file_recursive(path) if b['mode'] == 'recursive' else ed.edit_file(path)
+                with cm2:
+                    pass
+            except ValueError:
+                pass
+            except Exception as e:  # noqa: BLE001
+                findings.append(('noop-session', f'a second, read-only session raised {type(e).__name__}: {e}'))
+            for q, (data0, mt0) in snap.items():
+                if not os.path.exists(q):
+                    findings.append(('noop-session', f'{os.path.relpath(q, root)} disappeared in a session that changed nothing'))
+                elif open(q, 'rb').read() != data0:
+                    findings.append(('noop-session', f'{os.path.relpath(q, root)} was rewritten by a session that changed nothing: '
+                                                     f'{data0!r} -> {open(q, "rb").read()!r}'))
+                elif os.stat(q).st_mtime_ns != mt0:
+                    findings.append(('noop-session', f'{os.path.relpath(q, root)} was touched by a session that changed nothing'))
         # nothing else was created
         extra = []
         for dp, dn, fn in os.walk(root):
